@@ -293,6 +293,19 @@ class World(object):
         ce.sock.end = ce
         return ce
 
+    def client_reconnect(self, i):
+        """connect() again on the SAME UdpClient object (the caller has disconnected it)"""
+        ce = self.clients[i]
+        cb = None
+        if self.connect_callback:
+            def cb(ok, ce=ce):
+                ce.connect_cb.append((self.vt.now, ok))
+        n0 = len(self.sockets)
+        ce.client.connect(SERVER_ADDR, cb)
+        ce.sock = self.sockets[n0]
+        ce.sock.end = ce
+        return ce
+
     def on_client_sendto(self, sock, datagram, addr):
         ce = sock.end
         self._emit(ce.name, "s", bytes(datagram), ce.addr)
